@@ -45,7 +45,15 @@ theorem probeStep_res {cfg : Config} {inuse : List (Bytes × List User)} {fs : F
   · rename_i l hl
     split at h
     · rw [RunM.run_pure] at h; cases h
-      exact ⟨rfl, rfl, LEq.refl _⟩
+      -- (fix e3cb7aa) the record of a layer in the error state gets its mounts and users
+      have hc := StateProbe.probeErr_key cfg inuse d name l
+      have hcc : core (StateProbe.probeErr cfg inuse d name l) = core l := by
+        rw [core_eq_iff]
+        exact ⟨hc.1, hc.2.1, hc.2.2.1, hc.2.2.2.2.1⟩
+      have hn : (StateProbe.probeErr cfg inuse d name l).name = name := by
+        rw [core_eq_iff] at hcc
+        rw [hcc.1]; exact StateProbe.findLayer_name d name l hl
+      exact ⟨rfl, rfl, LEq.setLayer (l := l) (by rw [hn]; exact hl) hcc⟩
     · obtain ⟨l', w1, h1, h2⟩ := run_bind_ok h
       have hx := liftRes_run_ok h1
       rw [hx.1, RunM.run_pure] at h2
